@@ -145,7 +145,12 @@ def read_rows(path: str):
 
     c = sqlite3.connect(path)
     try:
-        rows = c.execute("SELECT hostname, port, fingerprint, first_seen, last_seen FROM known_hosts").fetchall()
+        try:
+            rows = c.execute("SELECT hostname, port, fingerprint, first_seen, last_seen FROM known_hosts").fetchall()
+        except sqlite3.OperationalError as e:
+            if "no such table" not in str(e):
+                raise
+            rows = []          # the table itself is gone: the store holds no pin at all (the oracles judge that)
     finally:
         c.close()
     return sorted([r[0], r[1], fp_id(r[2]), t_id(r[3]), t_id(r[4])] for r in rows)
